@@ -14,7 +14,11 @@ CONSTANTS
   StopKA = TRUE
   CloseAtomic = TRUE
   KeepSink = TRUE
+  FailSet = {0, 1, 2, 3, 4, 5}
+  MaxReq = 1
+  SharedBuf = FALSE
+  MmEncodeInAdd = TRUE
 INVARIANTS TypeOK NoRace NoUseAfterFinish NoSplice PreFirst InOrder CompleteLast SseComplete PingsOnlyIfConfigured
-           MmFramed MmOrder MmNoEmpty MmComplete
+           MmFramed MmOrder MmNoEmpty MmComplete SseFailed MmFailed NoGarbage NoCrash
 PROPERTIES Termination HelpersStop Finished
 CHECK_DEADLOCK FALSE
